@@ -27,7 +27,9 @@ type c10Case struct {
 
 var c10Universe = []string{"TestA - 1", "TestA - 2", "TestA - 10", "TestA/x - 1", "TestB - 1", "Test_1 - 1", "TestA/c_01 - 1", "TestA/c_1 - 1", "FuzzA/seed#0 - 1", "TestA/9 - 10", "TestA/10 - 9"}
 
-var c10Bodies = []string{"a", "", "x\n\ny", "---", "[TestA - 1]", "\n", "/-/-/-/", " ", "b\n", "[TestB - 1]\nz", "\xff", "$1%d", "k:\n[TestQ - 7]\nv", "before\n--- \nafter", "head\n\n[TestA - 1]\ntail", "100% done %s\n%!d(MISSING)", c10Big, c10Long, c10Huge}
+var c10Bodies = []string{"a", "", "x\n\ny", "---", "[TestA - 1]", "\n", "/-/-/-/", " ", "b\n", "[TestB - 1]\nz", "\xff", "$1%d", "k:\n[TestQ - 7]\nv", "before\n--- \nafter", "head\n\n[TestA - 1]\ntail", "100% done %s\n%!d(MISSING)", c10Big, c10Long, c10Huge,
+	// bracketed lines that are NOT entry headers (no ` - `, no number, trailing text)
+	"[draft]\n[a - b]\n[TestA - 1x]\n[TestA - ]\n[ - 1]", "[]\n[TestA-1]\n[TestA - 1] x"}
 
 // c10Big: a body larger than any line buffer a reader might use (many lines, 6 KB)
 var c10Big = strings.Repeat("a line of the big body 0123456789\n", 180) + "end"
